@@ -64,6 +64,10 @@ def judge(op, impl, model):
     m = re.search(r" min=(\"(?:[^\"\\]|\\.)*\")", impl)
     d = re.search(r" detail=(\"(?:[^\"\\]|\\.)*\")", impl)
     origin = (_field(impl, "label") or "-").split(":")[0]
+    if cls == "panic" and origin in ("hand", "mutant"):
+        # Hand-assembled or mutated model values (nil optionals etc.) are produced neither by the parser nor by the
+        # query builders: they are outside the quantifier of C05. A panic there is information, not a violation.
+        return "ok info-panic-outside-quantifier site=%s" % _field(impl, "site")
     return "reject %s site=%s origin=%s min=%s %s" % (cls, _field(impl, "site"), origin, m.group(1) if m else "-", (d.group(1) if d else "")[:300])
 
 
